@@ -1,6 +1,353 @@
-"""Verus units (filled in below)."""
+"""Verus units: functions extracted verbatim from /repo/src, contracts injected from
+/verif/verus/specs.toml, verified for all N and all K, V.
+
+What the extraction changes (everything else is byte-identical and checked):
+  * only the listed functions and the two struct definitions are taken; doc comments
+    and attributes in front of an item are not copied;
+  * `pub(super)` -> `pub(crate)` (single-file crate);
+  * `-> T` becomes `-> (r: T)` so that `ensures` can name the result; for
+    `IntoIter::next` the associated type `Self::Item` is spelled out as `(K, V)`
+    (checked against `type Item = (K, V);` in the impl);
+  * trait impl headers (`Drop for Map`, `Iterator for IntoIter`, `ExactSizeIterator
+    for IntoIter`) become inherent impl headers;
+  * requires/ensures are inserted between signature and body, loop invariants before
+    the body of the n-th loop; the slot accessors get #[verifier::external_body].
+"""
+import json
+import os
+import re
+import shutil
+import tempfile
+import time
+import tomllib
+
+import vf
+
+SEMANTIC = re.compile(
+    r"postcondition not satisfied|precondition not satisfied|invariant not satisfied|"
+    r"assertion failed|possible arithmetic (underflow|overflow)|possible division by zero|"
+    r"loop invariant not|recommendation not met|assertion not satisfied|"
+    r"index out of bounds|possible .*overflow|failed precondition|cannot show")
+PROOF_STRUCTURE = re.compile(r"decreases not satisfied|termination")
+
+
+def load_specs():
+    with open(os.path.join(vf.VERIF, "verus", "specs.toml"), "rb") as f:
+        return tomllib.load(f)
+
+
+def enclosing_impl(sc, pos):
+    """innermost `impl ... {` block containing pos -> (header_text, open_idx, close_idx)"""
+    best = None
+    for m in re.finditer(r"\bimpl\b", sc.code):
+        bo = sc.code.find("{", m.end())
+        if bo < 0:
+            continue
+        try:
+            bc = sc.match_brace(bo)
+        except vf.Undecided:
+            continue
+        if bo < pos < bc:
+            if best is None or bo > best[1]:
+                best = (sc.t[m.start():bo].strip(), bo, bc)
+    return best
+
+
+def inherent_header(h):
+    h2 = re.sub(r"\b(Drop|Iterator|ExactSizeIterator)\s+for\s+", "", h)
+    h2 = re.sub(r"<'\w+(,\s*)?", "<", h2) if False else h2
+    return re.sub(r"\s+", " ", h2)
+
+
+def find_loops(sc, lo, hi):
+    """positions of loop body braces, in source order, inside [lo,hi)"""
+    out = []
+    for m in re.finditer(r"\b(for|while|loop)\b", sc.code[lo:hi]):
+        s = lo + m.start()
+        # `for` in `impl X for Y` / HRTB cannot occur inside a fn body of these functions
+        bo = sc.code.find("{", lo + m.end())
+        out.append((s, bo))
+    return out
+
+
+def extract_fn(repo, spec):
+    path = os.path.join(repo, spec["file"])
+    if not os.path.exists(path):
+        raise vf.Undecided("file %s is gone" % spec["file"])
+    text = open(path).read()
+    sc = vf.RustScanner(text)
+    lo, hi = 0, sc.n
+    if "within" in spec:
+        hs = [m.start() for m in re.finditer(re.escape(spec["within"]), sc.code)]
+        if len(hs) != 1:
+            raise vf.Undecided("impl block %r matched %d times" % (spec["within"], len(hs)))
+        bo = sc.code.find("{", hs[0])
+        lo, hi = bo, sc.match_brace(bo)
+    start, bo, bc = sc.find_fn(spec["anchor"], lo, hi)
+    sig = text[start:bo].rstrip()
+    body = text[bo:bc + 1]
+    imp = enclosing_impl(sc, start)
+    if imp is None:
+        raise vf.Undecided("no enclosing impl for %s" % spec["name"])
+    header = imp[0]
+    # ---- signature: name the result
+    sig2 = sig.replace("pub(super)", "pub(crate)")
+    # the return arrow is the one after the parameter list (not one inside a generic bound)
+    depth, ang, pend = 0, 0, None
+    mfn = re.search(r"\bfn\s+\w+", sig2)
+    i = mfn.end()
+    while i < len(sig2):
+        c = sig2[i]
+        if c == "<" and depth == 0:
+            ang += 1
+        elif c == ">" and depth == 0 and sig2[i - 1] != "-":
+            ang -= 1
+        elif c == "(":
+            depth += 1
+        elif c == ")":
+            depth -= 1
+            if depth == 0 and ang == 0:
+                pend = i
+                break
+        i += 1
+    if pend is None:
+        raise vf.Undecided("cannot parse signature of %s" % spec["name"])
+    tail = sig2[pend + 1:]
+    m = re.match(r"\s*->\s*(.+?)\s*(where\b.*)?$", tail, re.S)
+    if m:
+        rt = m.group(1).strip()
+        if rt == "Option<Self::Item>":
+            blk = text[imp[1]:imp[2]]
+            if not re.search(r"type\s+Item\s*=\s*\(K,\s*V\);", blk):
+                raise vf.Undecided("Self::Item is no longer (K, V) in %s" % spec["name"])
+            rt = "Option<(K, V)>"
+        sig2 = sig2[:pend + 1] + " -> (r: %s)" % rt + (" " + m.group(2) if m.group(2) else "")
+    # ---- loops
+    loops = find_loops(sc, bo, bc)
+    ann = spec.get("loops", [])
+    if len(ann) != len(loops):
+        raise vf.Undecided("%s: %d loops in the source, %d loop specifications" % (spec["name"], len(loops), len(ann)))
+    pieces, cur = [], bo
+    for (s, lbo), a in zip(loops, ann):
+        pieces.append(text[cur:lbo].rstrip() + "\n" + a.rstrip("\n").lstrip("\n") + "\n            ")
+        cur = lbo
+    pieces.append(text[cur:bc + 1])
+    body2 = "".join(pieces)
+    # check: removing the inserted annotations gives back the original body
+    chk = body2
+    for a in ann:
+        chk = chk.replace("\n" + a.rstrip("\n").lstrip("\n") + "\n            ", " ", 1)
+    if re.sub(r"\s+", " ", chk) != re.sub(r"\s+", " ", body):
+        raise vf.Undecided("%s: body identity check failed" % spec["name"])
+    line_in_repo = text.count("\n", 0, start) + 1
+    return {"name": spec["name"], "header": inherent_header(header), "orig_header": re.sub(r"\s+", " ", header),
+            "sig": sig2, "spec": spec.get("spec", ""), "body": body2, "orig_body": body,
+            "trusted": spec.get("trusted", False), "props": spec.get("props", []),
+            "file": spec["file"], "line": line_in_repo, "sha": vf.sha(body), "loops": len(loops)}
+
+
+def extract_struct(repo, spec):
+    path = os.path.join(repo, spec["file"])
+    text = open(path).read()
+    sc = vf.RustScanner(text)
+    hits = [m for m in re.finditer(spec["anchor"], sc.code)]
+    if len(hits) != 1:
+        raise vf.Undecided("struct anchor %r matched %d times" % (spec["anchor"], len(hits)))
+    s = hits[0].start()
+    bo = sc.code.find("{", s)
+    bc = sc.match_brace(bo)
+    t = text[s:bc + 1].replace("pub(super)", "pub(crate)")
+    t = "\n".join(l for l in t.split("\n") if not l.strip().startswith("///"))
+    return t
+
+
+def assemble(repo):
+    specs = load_specs()
+    out = ["// generated by /verif/lib/verus_units.py from %s - do not edit" % repo,
+           "use vstd::prelude::*;", "use vstd::std_specs::cmp::PartialEqSpec;",
+           "use core::mem::MaybeUninit;", "verus! {", ""]
+    for s in specs.get("struct", []):
+        out.append(extract_struct(repo, s))
+        out.append("")
+    out.append(open(os.path.join(vf.VERIF, "verus", "prelude.rs")).read())
+    fns, lost = [], []
+    linemap = []  # (first_line, last_line, fn)
+    for s in specs.get("fn", []):
+        try:
+            f = extract_fn(repo, s)
+        except vf.Undecided as e:
+            lost.append({"function": s["name"], "why": str(e), "props": s.get("props", []), "trusted": s.get("trusted", False)})
+            continue
+        fns.append(f)
+    for f in fns:
+        first = sum(x.count("\n") + 1 for x in out) + 1
+        blk = [f["header"] + " {"]
+        if f["trusted"]:
+            blk.append("    #[verifier::external_body]")
+        blk.append("    " + f["sig"])
+        blk.append(f["spec"].strip("\n"))
+        f["body_line"] = first + sum(x.count("\n") + 1 for x in blk)
+        blk.append("    " + f["body"])
+        blk.append("}")
+        blk.append("")
+        txt = "\n".join(blk)
+        out.append(txt)
+        last = first + txt.count("\n")
+        linemap.append((first, last, f))
+    out.append("} // verus!")
+    out.append("fn main() {}")
+    return "\n".join(out), fns, lost, linemap
+
+
+def parse_errors(stderr, linemap, path):
+    errs = []
+    cur = None
+    base = os.path.basename(path)
+    for line in stderr.split("\n"):
+        m = re.match(r"^(error|warning|note)(\[\w+\])?: (.*)$", line)
+        if m:
+            cur = {"level": m.group(1), "msg": m.group(3), "lines": [], "text": [line]}
+            errs.append(cur)
+            continue
+        if cur is not None:
+            cur["text"].append(line)
+            m = re.match(r"^\s*-->\s*(\S+):(\d+):(\d+)", line)
+            if m and os.path.basename(m.group(1)) == base:
+                cur["lines"].append(int(m.group(2)))
+            m = re.match(r"^\s*(\d+)\s*\|", line)
+            if m:
+                cur.setdefault("ctx_lines", []).append(int(m.group(1)))
+    out = []
+    for e in errs:
+        if e["level"] != "error":
+            continue
+        if e["msg"].startswith("aborting due to"):
+            continue
+        fn = None
+        for ln in e["lines"] + e.get("ctx_lines", []):
+            for a, b, f in linemap:
+                if a <= ln <= b:
+                    fn = f
+                    break
+            if fn:
+                break
+        e["fn"] = fn
+        e["text"] = "\n".join(e["text"])[:1500]
+        out.append(e)
+    return out
 
 
 def run_for(prop, tier, only=None):
-    return {"obligations": 0, "discharged": 0, "functions": [], "violations": [], "undecided": [],
-            "samples": [], "assumptions": [], "smt_s": 0.0, "cmd": ""}
+    t0 = time.time()
+    res = {"obligations": 0, "discharged": 0, "functions": [], "violations": [], "undecided": [],
+           "samples": [], "assumptions": [], "smt_s": 0.0, "cmd": "", "backend": "verus"}
+    specs = load_specs()
+    relevant = [s for s in specs.get("fn", []) if prop in s.get("props", []) and not s.get("trusted")]
+    if only:
+        relevant = [s for s in relevant if only in s["name"]] or relevant
+    if not relevant:
+        return res
+    try:
+        text, fns, lost, linemap = assemble(vf.REPO)
+    except vf.Undecided as e:
+        res["undecided"].append({"function": "(extraction)", "why": str(e)})
+        return res
+    except Exception as e:  # noqa
+        res["undecided"].append({"function": "(extraction)", "why": repr(e)})
+        return res
+    work = tempfile.mkdtemp(prefix="micromap-verus-", dir=os.environ.get("VERIF_TMP", "/tmp"))
+    try:
+        path = os.path.join(work, "micromap_core.rs")
+        open(path, "w").write(text)
+        r = vf.run_verus(path)
+        if os.environ.get("VERIF_KEEP_VERUS"):
+            shutil.copy(path, os.environ["VERIF_KEEP_VERUS"])
+    finally:
+        shutil.rmtree(work, ignore_errors=True)
+    res["cmd"] = "verus micromap_core.rs --output-json --time --multiple-errors 30 (file regenerated from /repo/src on this run)"
+    rel_names = {s["name"] for s in relevant}
+    lost_rel = [l for l in lost if l["function"] in rel_names or l["trusted"]]
+    for l in lost_rel:
+        res["undecided"].append({"function": l["function"], "why": "anchor lost: " + l["why"]})
+    if r["status"] != "ran" or r.get("json") is None:
+        res["undecided"].append({"function": "(verus)", "why": "verus did not produce a result: %s %s" % (r["status"], (r.get("stderr") or "")[-400:])})
+        return res
+    js = r["json"]
+    vr = js.get("verification-results", {})
+    per_fn = {}
+    for m in js.get("times-ms", {}).get("smt", {}).get("smt-run-module-times", []):
+        for fb in m.get("function-breakdown", []):
+            nm = fb["function"].split("::", 1)[1]
+            per_fn[nm] = fb
+            res["smt_s"] += fb.get("time-micros", 0) / 1e6
+    errors = parse_errors(r["stderr"], linemap, "micromap_core.rs")
+    hard = [e for e in errors if not SEMANTIC.search(e["msg"]) and not PROOF_STRUCTURE.search(e["msg"])]
+    if vr.get("encountered-vir-error") or (hard and not per_fn):
+        # the file did not get through the front end: nothing is decided
+        why = "; ".join(e["msg"] for e in hard[:3]) or "front-end error"
+        for s in relevant:
+            res["undecided"].append({"function": s["name"], "why": "verus front end rejected the extracted text: " + why[:400]})
+        return res
+    extracted = {f["name"]: f for f in fns}
+    for s in relevant:
+        f = extracted.get(s["name"])
+        if f is None:
+            continue
+        fb = per_fn.get(s["name"])
+        row = {"function": s["name"], "repo_location": "%s:%d" % (f["file"], f["line"]), "body_sha256_16": f["sha"],
+               "loops_annotated": f["loops"], "impl_header": f["orig_header"]}
+        ferrs = [e for e in errors if e["fn"] is f]
+        sem = [e for e in ferrs if SEMANTIC.search(e["msg"])]
+        other = [e for e in ferrs if e not in sem]
+        res["obligations"] += 1
+        if fb and fb.get("success") and not ferrs:
+            res["discharged"] += 1
+            row["status"] = "verified"
+            row["smt_ms"] = fb.get("time")
+            row["rlimit"] = fb.get("rlimit")
+            if len(res["samples"]) < 3:
+                res["samples"].append({"unit": "verus:" + s["name"], "obligation": "body satisfies: " + " ".join(s["spec"].split())[:300], "status": "verified for all N, K, V"})
+        elif sem:
+            row["status"] = "failed"
+            seen = set()
+            for e in sem:
+                m = re.search(r"^\s*\d+\s*\|\s*(.*?)\s*$", e["text"], re.M)
+                clause = (m.group(1) if m else "").strip()[:160]
+                ob = "%s: %s [%s]" % (s["name"], e["msg"], clause)
+                if ob in seen or len(seen) >= 3:
+                    continue
+                seen.add(ob)
+                res["violations"].append({"function": s["name"], "obligation": ob,
+                                          "repo_location": row["repo_location"], "message": e["text"]})
+        else:
+            row["status"] = "undecided"
+            why = "; ".join(e["msg"] for e in other[:3]) or ("rlimit/timeout" if fb and not fb.get("success") else "no result for this function")
+            res["undecided"].append({"function": s["name"], "why": why})
+        res["functions"].append(row)
+    # ---- canary: the pipeline must be able to report a failure
+    if not res["violations"] and not res["undecided"]:
+        marker = "Some(r) == old(self).slot(i as int),"
+        if marker in text:
+            ctext = text.replace(marker, marker + "\n            final(self).slen() == old(self).slen(), // canary: false on purpose", 1)
+            work = tempfile.mkdtemp(prefix="micromap-verus-canary-", dir=os.environ.get("VERIF_TMP", "/tmp"))
+            try:
+                cpath = os.path.join(work, "micromap_core.rs")
+                open(cpath, "w").write(ctext)
+                cr = vf.run_verus(cpath)
+            finally:
+                shutil.rmtree(work, ignore_errors=True)
+            cj = (cr.get("json") or {}).get("verification-results", {})
+            res["canary"] = {"what": "false postcondition on remove_index_read must be rejected", "errors": cj.get("errors")}
+            if not cj.get("errors"):
+                res["undecided"].append({"function": "(canary)", "why": "BROKEN: Verus accepted a deliberately false postcondition"})
+        else:
+            res["canary"] = {"what": "skipped: remove_index_read contract marker not present"}
+    res["assumptions"] = [
+        "Verus: the contracts of the six slot accessors (item_ref, item_mut, value_mut, item_read, item_drop, item_write) are external_body - assumed here, discharged by Kani contract proofs at N<=4 (core_contracts)",
+        "Verus: core::mem::drop is given an assumed specification (no effect on the caller's state)",
+        "Verus: ghost slot state slot_of(pairs,i) models a move out of MaybeUninit as Some -> None; machine integers are bounded mathematical integers with overflow as an obligation",
+    ]
+    res["wall_s"] = round(time.time() - t0, 2)
+    res["verus_total_verified"] = vr.get("verified")
+    res["verus_total_errors"] = vr.get("errors")
+    return res
